@@ -144,7 +144,7 @@ static size_t bignSign2_deep(size_t n, size_t f_deep, size_t ec_d,
 	return O_OF_W(4 * n) + beltHash_keep() +
 		utilMax(6,
 			beltHash_keep(),
-			32,
+			(size_t)32,
 			beltWBL_keep(),
 			ecMulA_deep(n, ec_d, ec_deep, n),
 			zzMul_deep(n / 2, n),
